@@ -524,7 +524,7 @@ HARNESSES = [Harness(f"pool_twin[{name}]", sym_pool, replay_pool, _cfg_pool(name
             lambda tier: [dict(n=2, nq=2)] + [dict(n=2, nq=1, kind=k, cost=cm) for k in ("pwc", "sklearn") for cm in (False, True) if (k, cm) != ("pwc", False)],
             ["skactiveml.base:SkactivemlClassifier.predict", "skactiveml.utils._selection:rand_argmin"], required_witnesses=("ran",)),
 ]
-BOUNDS = dict(quick="pool: n = 3, batch 2, candidates=None for the 27 adapter strategies (TypiClust / Clue / ProbCover / DropQuery with a clusterer that draws from the "
+BOUNDS = dict(quick="pool: n = 3, batch 2, candidates=None for the 29 adapter strategies (TypiClust / Clue / ProbCover / DropQuery with a clusterer that draws from the "
                     "generator it is given, global when random_state=None), random_state as int and as RandomState instance; the Monte-Carlo "
                     "branch of _conditional_expect; stream: all 7 managers and 7 strategies on 2 chunks (2+1); "
                     "ParzenWindowClassifier.predict tie-breaking; symbolic integer seed, two disjoint symbolic global streams",
